@@ -62,7 +62,7 @@ def _apply(part, pspec, op, d):
 
 def check_history(case):
     pspec = case["partition"]
-    dom = copy.deepcopy(case["domain"])
+    dom = gen.materialise_domain(case)
     d = len(dom)
     classes = ["part:" + pspec["cls"], "d:%d" % d]
     kinds = []
